@@ -497,6 +497,33 @@ def C07(run):
     corpustrace(run)
 
 
+def corpus_analysis(run, kind, family, env=None):
+    """Lint.tla / Visitor.tla applied to the program corpus: the trees are the REAL parser's (vh record corpus-trees, canonical names,
+    physical lines); TLC computes the report / the presentation log the specification prescribes; the real linter / a recording visitor
+    must produce exactly that (kind: corpuslint | corpusvisit)."""
+    import subprocess
+    binp = build_harness('debug')
+    trees = run.path('corpus-trees.ndjson')
+    p = subprocess.run([binp, 'record', 'corpus-trees', '--dir', os.path.join(VERIF, 'corpus'), '--out', trees], stdout=subprocess.PIPE,
+                       stderr=subprocess.PIPE, text=True)
+    if p.returncode != 0:
+        raise ToolError('corpus-trees recorder failed: ' + p.stderr[-800:])
+    out = run.path(kind + '.out')
+    res = run_tlc('MC_Lint.tla', 'MC_Lint_%s.cfg' % kind, out, extra_env={'CORPUS': trees}, xss='256m')
+    run.add_tlc(kind, res)
+    s = run_replay(family, out, timeout_ms=60000, env=env)
+    run.add_replay(kind, s, family)
+    for f in (out, trees):
+        try:
+            os.remove(f)
+        except OSError:
+            pass
+
+
+CORPUS_ANALYSIS_NOTE = ('; the same on the program corpus (corpus/: the Rockstar programs of the repository\'s own integration tests), whose trees '
+                        'are the real parser\'s')
+
+
 def lintjob(run, kind, family):
     tlc_replay(run, 'lint-' + kind, 'MC_Lint.tla', 'MC_Lint_%s_%s.cfg' % (kind, run.tier), family)
 
@@ -507,6 +534,8 @@ def C16(run):
                 'child position); a recording visitor implemented outside the crate must produce the same log and term, and for EVERY '
                 'choice of the failing callback the walk must stop there and return that error; non-trivial = more than one callback')
     lintjob(run, 'visit', 'visit')
+    run.rule += CORPUS_ANALYSIS_NOTE
+    corpus_analysis(run, 'corpusvisit', 'visit')
 
 
 def C17(run):
@@ -520,6 +549,7 @@ def C17(run):
     run.rule += ('; every numeric value named by a lint diagnostic of the lint family is compared with what the interpreter prints for that '
                  'right-hand side')
     tlc_replay(run, 'lint-values', 'MC_Lint.tla', 'MC_Lint_lint_%s.cfg' % run.tier, 'lint', env={'VH_LINT_PARTS': 'values'})
+    corpus_analysis(run, 'corpuslint', 'lint', env={'VH_LINT_PARTS': 'values'})
 
 
 def C18(run):
@@ -531,6 +561,8 @@ def C18(run):
                 'spanning three line breaks between all tokens): the report of the real front end + linter must name the physical lines')
     lintjob(run, 'lint', 'lint')
     grammar(run, 'lint', family='e2e', parts='lint')
+    run.rule += CORPUS_ANALYSIS_NOTE + ' (554 diagnostics)'
+    corpus_analysis(run, 'corpuslint', 'lint')
 
 
 def C19(run):
@@ -539,6 +571,8 @@ def C19(run):
                 'identifier definition on the model; the program must be unchanged and the linter must not panic')
     lintjob(run, 'lint', 'lint')
     grammar(run, 'lint', family='e2e', parts='lint')          # reports on rendered programs: physical line numbers behind multi-line comments
+    run.rule += CORPUS_ANALYSIS_NOTE + ' (554 diagnostics)'
+    corpus_analysis(run, 'corpuslint', 'lint')
     if run.tier == 'thorough':
         grammar(run, 'e2e', family='e2e', parts='lint')       # all interpreter families as text, real mention spellings
 
